@@ -410,14 +410,83 @@ func ruleAddRefOwnership(ctx *Ctx, rule string) {
 			r.Fail("%s: recvPayload no longer calls recvCap", rule)
 		} else {
 			// on the err != nil branch after recvCap, a release of mtab[:i] must precede the return
-			isRelease := func(m ast.Node) bool { return isCallNamed(info, m, "rpc.(releaseList).release") }
+			// ... or the clients are handed to the message's capability table,
+			// which the handlers clear before they release the message (below)
+			isRelease := func(m ast.Node) bool {
+				if isCallNamed(info, m, "rpc.(releaseList).release") {
+					return true
+				}
+				as, ok := m.(*ast.AssignStmt)
+				if !ok || len(as.Lhs) != 1 {
+					return false
+				}
+				sel, ok := ast.Unparen(as.Lhs[0]).(*ast.SelectorExpr)
+				return ok && sel.Sel.Name == "CapTable"
+			}
 			isErrReturn := func(m ast.Node) bool {
 				rs, ok := m.(*ast.ReturnStmt)
 				return ok && len(rs.Results) == 3 && !isNil(rs.Results[2])
 			}
 			noPathCheck(ctx, a, rule, "recvPayload | materialised clients released on the error path", u, pts[0].After(), pts[0].B.Nodes[pts[0].I].Pos(), isErrReturn, isRelease,
 				"recvPayload can return an error after materialising clients without releasing them: imports/exports leak a reference per malformed message",
-				"every error return after recvCap passes releaseList(...).release()")
+				"every error return after recvCap passes releaseList(...).release() or stores the clients in the message's CapTable")
+		}
+	}
+	// The handlers clear a received message's capability table before they
+	// release the message (transport contract; also what disposes of the
+	// clients recvPayload left in the table on its error path).
+	for _, h := range []struct{ fn, parse, param string }{
+		{"rpc.(*Conn).handleCall", "rpc.(*Conn).parseCall", "releaseCall"},
+		{"rpc.(*Conn).handleReturn", "rpc.(*Conn).parseReturn", "releaseRet"},
+	} {
+		top := mustUnit(ctx, a, rule, h.fn)
+		if top == nil {
+			continue
+		}
+		var relObj types.Object
+		if top.Type != nil && top.Type.Params != nil {
+			for _, f := range top.Type.Params.List {
+				for _, nm := range f.Names {
+					if nm.Name == h.param {
+						relObj = top.Pkg.TypesInfo.ObjectOf(nm)
+					}
+				}
+			}
+		}
+		if relObj == nil {
+			r.Fail("%s: %s has no parameter %s", rule, h.fn, h.param)
+			continue
+		}
+		for _, u := range a.Eng.Units {
+			if u != top && !strings.HasPrefix(u.Name, h.fn+"$") {
+				continue
+			}
+			info := u.Pkg.TypesInfo
+			isRel := func(m ast.Node) bool {
+				call, ok := m.(*ast.CallExpr)
+				if !ok {
+					return false
+				}
+				id, ok := ast.Unparen(call.Fun).(*ast.Ident)
+				return ok && info.ObjectOf(id) == relObj
+			}
+			isClear := func(m ast.Node) bool { return isCallNamed(info, m, "rpc.clearCapTable") }
+			if len(u.Find(isRel)) == 0 {
+				continue
+			}
+			start := u.Entry()
+			pos := u.Pos
+			if u == top {
+				pts := u.Find(func(m ast.Node) bool { return isCallNamed(info, m, h.parse) })
+				if len(pts) == 0 {
+					r.Fail("%s: %s no longer calls %s", rule, h.fn, h.parse)
+					continue
+				}
+				start = pts[0].After()
+			}
+			noPathCheck(ctx, a, rule, u.Name+" | capability table cleared before "+h.param+"()", u, start, pos, isRel, isClear,
+				"the received message is released on a path that did not clear its capability table after "+h.parse+" filled it: the clients in the table (including those recvPayload leaves there when a later descriptor is invalid) are leaked or released by the transport at an arbitrary point",
+				"every "+h.param+"() after "+h.parse+" is preceded by clearCapTable")
 		}
 	}
 }
